@@ -128,30 +128,13 @@ fn python_config(spec: &WorldSpec, world: &BuiltWorld) -> Result<String, String>
     Ok(cfg.to_string())
 }
 
-pub fn generate(seed: u64, n_scripts: usize, out: &Path, only: Option<usize>) -> Result<usize, String> {
-    std::fs::create_dir_all(out).map_err(|e| e.to_string())?;
-    let mut lines = String::new();
-    let per_world = 6;
-    let mut world: Option<(WorldSpec, BuiltWorld, String)> = None;
-    let mut total_ops = 0;
-    for si in 0..n_scripts {
-        if let Some(o) = only {
-            if si != o {
-                continue;
-            }
-        }
-        if si % per_world == 0 || only.is_some() {
-            let mut wr = Rng::derive(seed, "pygen/world", (si / per_world) as u64);
-            let full = wr.chance(1, 2);
-            let (spec, _) = gen_world(&mut wr, &WorldGenOpts { max_users: 2, max_rows: 40, full_plugins: full });
-            let dir = out.join(format!("w{}", si / per_world));
-            let built = build_world(&spec, &dir)?;
-            let cfg = python_config(&spec, &built)?;
-            world = Some((spec, built, cfg));
-        }
-        let (spec, built, cfg) = world.as_ref().unwrap();
+
+/// one script: tokenizers, list slots and operations with expectations from fresh Rust objects
+#[allow(clippy::too_many_arguments)]
+pub fn gen_script(rng: &mut Rng, spec: &WorldSpec, built: &BuiltWorld, cfg: &str, si: usize, seed: u64, nops_hint: usize, with_pretok: bool) -> Result<Value, String> {
+    let mut rng = rng.clone();
+    {
         let dict = built.dict.clone();
-        let mut rng = Rng::derive(seed, "pygen/script", si as u64);
         // tokenizers
         let modes = ["A", "B", "C"];
         let ntok = 1 + rng.below(3);
@@ -185,7 +168,7 @@ pub fn generate(seed: u64, n_scripts: usize, out: &Path, only: Option<usize>) ->
         let mut next_group = 0usize;
         let mut next_fill = 0usize;
         let mut ops: Vec<Value> = vec![];
-        let nops = 5 + rng.below(30);
+        let nops = nops_hint;
         for _ in 0..nops {
             let store = rng.below(n_slots);
             match rng.weighted(&[50, 18, 8, 10, 8, 3, 3]) {
@@ -363,15 +346,98 @@ pub fn generate(seed: u64, n_scripts: usize, out: &Path, only: Option<usize>) ->
                 }
             }
         }
-        total_ops += ops.len();
+
+        if with_pretok {
+            // calls of the shared SudachiPreTokenizer objects (mode C), with and without a handler
+            for _ in 0..1 + rng.below(3) {
+                let text = gen_text(&mut rng, &spec.keys).replace('\u{0}', "");
+                let handler = rng.chance(1, 2);
+                let subset = if handler { InfoSubset::all() } else { InfoSubset::empty() };
+                if let Ok(list) = fresh_analyse(&dict, Mode::C, Some(subset), &text) {
+                    let surfaces: Vec<String> = list.iter().map(|m| m.surface().to_string()).collect();
+                    let at = rng.below(ops.len() + 1);
+                    ops.insert(at, json!({"op":"pretok","text":text,"handler":handler,"expect":surfaces}));
+                }
+            }
+        }
         let script = json!({
             "script": si, "seed": seed, "dir": built.dir.display().to_string(), "config": cfg,
             "tokenizers": toks.iter().map(|t| json!({"mode": t.mode, "fields": t.fields, "projection": t.projection})).collect::<Vec<_>>(),
             "n_slots": n_slots, "ops": ops,
         });
+        Ok(script)
+    }
+}
+
+pub fn generate(seed: u64, n_scripts: usize, out: &Path, only: Option<usize>) -> Result<usize, String> {
+    std::fs::create_dir_all(out).map_err(|e| e.to_string())?;
+    let mut lines = String::new();
+    let per_world = 6;
+    let mut world: Option<(WorldSpec, BuiltWorld, String)> = None;
+    let mut total_ops = 0;
+    for si in 0..n_scripts {
+        if let Some(o) = only {
+            if si != o {
+                continue;
+            }
+        }
+        if si % per_world == 0 || only.is_some() {
+            let mut wr = Rng::derive(seed, "pygen/world", (si / per_world) as u64);
+            let full = wr.chance(1, 2);
+            let (spec, _) = gen_world(&mut wr, &WorldGenOpts { max_users: 2, max_rows: 40, full_plugins: full });
+            let dir = out.join(format!("w{}", si / per_world));
+            let built = build_world(&spec, &dir)?;
+            let cfg = python_config(&spec, &built)?;
+            world = Some((spec, built, cfg));
+        }
+        let (spec, built, cfg) = world.as_ref().unwrap();
+        let mut rng = Rng::derive(seed, "pygen/script", si as u64);
+        let nops = 5 + Rng::derive(seed, "pygen/nops", si as u64).below(30);
+        let script = gen_script(&mut rng, spec, built, cfg, si, seed, nops, false)?;
+        total_ops += script["ops"].as_array().map(|a| a.len()).unwrap_or(0);
         lines.push_str(&script.to_string());
         lines.push('\n');
     }
     std::fs::write(out.join("scripts.jsonl"), lines).map_err(|e| e.to_string())?;
     Ok(total_ops)
+}
+
+
+/// C18, Python-thread clause: cases of 2-3 thread scripts over ONE Dictionary whose configuration
+/// also lists the three no-op seam plugins (sim points inside do_tokenize).
+pub fn generate_threads(seed: u64, n_cases: usize, out: &Path, seam_dir: &str, only: Option<usize>) -> Result<usize, String> {
+    std::fs::create_dir_all(out).map_err(|e| e.to_string())?;
+    let mut lines = String::new();
+    for ci in 0..n_cases {
+        if let Some(o) = only {
+            if ci != o {
+                continue;
+            }
+        }
+        let mut wr = Rng::derive(seed, "pythreads/world", ci as u64);
+        let full = wr.chance(2, 3);
+        let (spec, _) = gen_world(&mut wr, &WorldGenOpts { max_users: 2, max_rows: 30, full_plugins: full });
+        let dir = out.join(format!("t{}", ci));
+        let built = build_world(&spec, &dir)?;
+        let plain_cfg = python_config(&spec, &built)?;
+        let mut cfg: Value = serde_json::from_str(&plain_cfg).map_err(|e| e.to_string())?;
+        let seam = |n: &str| json!({"class": format!("{}/libseam_{}.so", seam_dir, n)});
+        cfg["inputTextPlugin"].as_array_mut().unwrap().insert(0, seam("input"));
+        cfg["oovProviderPlugin"].as_array_mut().unwrap().insert(0, seam("oov"));
+        cfg["pathRewritePlugin"].as_array_mut().unwrap().push(seam("path"));
+        let mut rng = Rng::derive(seed, "pythreads/case", ci as u64);
+        let nt = 2 + rng.below(2);
+        let mut threads = vec![];
+        for t in 0..nt {
+            let mut r2 = Rng::derive(seed, "pythreads/script", (ci * 8 + t) as u64);
+            let n = 2 + r2.below(6);
+            threads.push(gen_script(&mut r2, &spec, &built, &plain_cfg, ci * 8 + t, seed, n, true)?);
+        }
+        let case = json!({"case": ci, "seed": seed, "dir": built.dir.display().to_string(), "config": cfg.to_string(),
+                          "threads": threads, "sched_seed": rng.next_u64() >> 1});
+        lines.push_str(&case.to_string());
+        lines.push('\n');
+    }
+    std::fs::write(out.join("threads.jsonl"), lines).map_err(|e| e.to_string())?;
+    Ok(n_cases)
 }
